@@ -233,6 +233,10 @@ def r13_6(run):
                     run.ob('R13.6', u, n, 'fixed text is removed exactly, not with a character-set strip', not bad, slot='strip-set@%s:%r' % (u.short, a),
                            message='%s uses %s: strip-family methods remove any run of those characters, so a value ending in '
                                    'one of them loses part of itself' % (u.short, src(n)[:50]))
+    ok_removal(run, 'R13.6')
+
+
+def ok_removal(run, rid):
     # the OK terminator removal in _broadcast_response
     bc = U(run, '_broadcast_response')
     g = cfg_of(bc)
@@ -240,7 +244,7 @@ def r13_6(run):
     RESP = cbs[0].args[0].id if cbs else 'resp'
     cut = [n for n in g.real_nodes() if n.kind == 'stmt' and isinstance(n.ast, ast.Assign) and assign_to(n.ast, RESP) is not None and
            any(lab == 'T' for _, lab in g.guarded_by(n, lambda t: isinstance(t, ast.Call) and dotted(t.func) == RESP + '.endswith'))]
-    run.floor('R13.6', 'final-OK removal sites', len(cut), 1)
+    run.floor(rid, 'final-OK removal sites', len(cut), 1)
     for n in cut:
         v = assign_to(n.ast, RESP)
         tests = [t for t, lab in g.guarded_by(n, lambda t: isinstance(t, ast.Call) and dotted(t.func) == RESP + '.endswith') if lab == 'T']
@@ -252,11 +256,37 @@ def r13_6(run):
             ok = isinstance(suffix, str) and (cv == -len(suffix) or src(up) in ('-len(%r)' % suffix,))
         elif isinstance(v, ast.Call) and dotted(v.func) == RESP + '.removesuffix' and const(v.args[0]) == suffix:
             ok = True
-        run.ob('R13.6', bc, n.ast, 'the final OK line is cut off by exactly the length of the tested suffix', ok, slot='ok-removal',
+        run.ob(rid, bc, n.ast, 'the final OK line is cut off by exactly the length of the tested suffix', ok, slot='ok-removal',
                message='the reply terminator %r is removed with %s (not an exact cut of len(suffix) characters)' % (suffix, src(v)))
 
 
+def r13_7(run):
+    """the reply text handed to the parsers is exactly the lines of this reply: the accumulation buffer is
+    emptied on every path of _broadcast_response (also after 650 events), and every received line - empty
+    ones included - reaches the line machine"""
+    from . import c01
+    bc = U(run, '_broadcast_response')
+    g = cfg_of(bc)
+    for c in c01.code_reps(run):
+        for p in g.paths(eval_hook=hook_for_env({'self.code': c})):
+            run.paths_enumerated += 1
+            if p.exit == 'raise':
+                continue
+            tags = [t for t, _, _ in path_effects(p, c01.bc_classify)]
+            run.ob('R13.7', bc, bc.node, 'the reply buffer is emptied when a reply or event ends [code class %s]' % c01.code_class(c), 'reset_response' in tags,
+                   slot='buffer-reset[%s]' % c01.code_class(c), message='self.response is not reset after a %s reply: its text is prepended to the next single-line reply' % c01.code_class(c))
+    lr = U(run, 'lineReceived')
+    gl = cfg_of(lr)
+    for p in gl.paths():
+        if p.exit == 'raise':
+            continue
+        k = sum(1 for n, _ in p.steps if any(is_call_to(a, 'self.fsm.process') for a in node_asts(n)))
+        run.ob('R13.7', lr, lr.node, 'every received line (empty ones too) is fed to the line machine', k == 1, slot='every-line',
+               message='lineReceived drops a line on path %s: blank lines vanish from multi-line values' % p.describe())
+
+
 RULES = [
+    ('R13.7', 'reply buffer emptied on every path of _broadcast_response; every received line reaches the machine', r13_7),
     ('R13.6', 'exact removal of fixed prefixes/suffixes (no character-set strip with the tested literal; final OK cut by len(suffix))', r13_6),
     ('R13.1', 'dot-unstuffing exists on the data-line path and precedes accumulation; terminator matched first', r13_1),
     ('R13.2', 'GETINFO wrappers request exactly the given keys and parse with key_hints = those keys', r13_2),
